@@ -117,6 +117,13 @@ let state_line hdr asec ksec psec ops =
      c name major minor pmajor.pminor|- path=blob ...   a real Trie.Commit: its hist puts; answer L<code of link_check>
      p base target name:major.minor ...                  a pruner round on these roots; answer D <deduped puts> # <deleted hist keys>
      r name major minor                                  read a root; answer T key=val~meta,... or Tfail
+     w name major minor pmajor.pminor|- skip op ...      a handle opened at the parent root (or empty), the operations
+                                                         g<key> (Get) u<key>=<val~meta> (Update) d<key> (Update with an empty value)
+                                                         on hex keys (t = terminator), then Trie.Commit(major.minor, skipHash = skip):
+                                                         answer W <path=blob the model's trie.go + hasher.store put> ... # <path of a
+                                                         dirty full / short node of the handle before the commit> ...  or Wfail
+                                                         (full nodes are all taken to have a hash: exact only when skip = 1);
+                                                         does not change the model store (the following c applies the real puts)
    blob syntax: N | V<val>~<meta> | S<nibbles>(blob) | F(blob,...) | R<major>.<minor>; values are opaque strings *)
 let path_of_tok (s : string) : nat list =
   if s = "-" then [] else List.init (String.length s) (fun i -> nat_of_int (if s.[i] = 't' then 16 else nib_of_char s.[i]))
@@ -189,6 +196,25 @@ let store_line hdr ops =
          let dels = List.map (fun ((nm, p), v) -> hex_of_n nm ^ "/" ^ tok_of_path p ^ "/" ^ tok_of_ver v) del in
          st := st';
          String.concat " " (("D" :: puts) @ ("#" :: dels)))
+    | "w" :: name :: ma :: mi :: parent :: skip :: optoks ->
+      let v = (n_of_hex ma, n_of_hex mi) in
+      let g = sget0 !st (n_of_hex name) in
+      let head = if parent = "-" then WNil else WRef (ver_of_tok parent) in
+      let op_of tok =
+        let rest = String.sub tok 1 (String.length tok - 1) in
+        match tok.[0] with
+        | 'g' -> HGet (path_of_tok rest)
+        | 'd' -> HUpd (path_of_tok rest, None)
+        | 'u' -> let (k, x) = split1 '=' rest in HUpd (path_of_tok k, Some x)
+        | _ -> failwith "bad handle op" in
+      (match wt_run seq g (List.map op_of optoks) head with
+       | None -> "Wfail"
+       | Some w ->
+         match wt_commit g (fun _ -> true) (skip = "1") v w with
+         | None -> "Wfail"
+         | Some (_, es) ->
+           String.concat " " (("W" :: List.map (fun (p, b) -> tok_of_path p ^ "=" ^ show_blob b) es)
+                              @ ("#" :: List.map tok_of_path (dirty_paths [] w))))
     | ["r"; name; ma; mi] ->
       (match open_root fuel !st (n_of_hex name) (n_of_hex ma, n_of_hex mi) with
        | None -> "Tfail"
